@@ -247,6 +247,38 @@ static int vh_finish(void) {
 	return vh_nviol ? 1 : 0;
 }
 
+/* ---------- batches in forked children (for cases that leak or may crash: the child reports its own counters) ---------- */
+static void vh_emit_stats(void) {
+	printf("@stat {");
+	for (int i = 0; i < vh_nstats; i++) {
+		char nm[128]; snprintf(nm, sizeof nm, "%s%s", vh_stats[i].ismax && strncmp(vh_stats[i].name, "max_", 4) ? "max_" : "", vh_stats[i].name);
+		printf("%s\"%s\":%" PRIu64, i ? "," : "", nm, vh_stats[i].v);
+	}
+	printf("}\n@sigs [");
+	int first = 1;
+	for (size_t i = 0; i < vh_sigcap; i++) if (vh_sigtab[i]) { printf("%s%" PRIu64, first ? "" : ",", vh_sigtab[i]); first = 0; }
+	printf("]\n");
+}
+/* returns true in the child (fresh counters); the parent blocks until the child is done and returns false */
+static bool vh_batch_fork(void) {
+	fflush(stdout);
+	pid_t pid = fork();
+	if (pid < 0) { perror("fork"); abort(); }
+	if (pid == 0) {
+		for (int i = 0; i < vh_nstats; i++) vh_stats[i].v = 0;
+		if (vh_sigtab) memset(vh_sigtab, 0, vh_sigcap * 8); vh_signum = 0;
+		vh_nsamples = 4;
+		return true;
+	}
+	int st = 0; while (waitpid(pid, &st, 0) < 0 && errno == EINTR) {}
+	if (WIFEXITED(st) && WEXITSTATUS(st) == 0) return false;
+	if (WIFEXITED(st) && WEXITSTATUS(st) == 1) { vh_nviol++; return false; }           /* child reported violations itself */
+	if (WIFEXITED(st) && WEXITSTATUS(st) >= 75 && WEXITSTATUS(st) <= 79) { vh_nviol++; return false; }   /* fatal, already reported with its case */
+	{ char w[128]; snprintf(w, sizeof w, "batch child ended abnormally (status 0x%x)", st); vh_nviol++; vh_emit_violation("crash", vh_cur_case(), w); }
+	return false;
+}
+static void vh_batch_exit(void) { vh_emit_stats(); if (vh_incomplete) printf("@incomplete {}\n"); fflush(stdout); _exit(vh_nviol ? 1 : 0); }
+
 /* ---------- byte strings ---------- */
 typedef struct { const uint8_t *p; size_t n; } vh_bs;
 static inline int vh_bscmp(const uint8_t *a, size_t al, const uint8_t *b, size_t bl) {
